@@ -21,16 +21,17 @@ import (
 )
 
 type propSpec struct {
-	ID          string
-	Title       string
-	Explanation string   // what the structural rules decide (goes to evidence.coverage.explanation)
-	NotDecided  []string // behavioural clauses that are NOT decided
-	Assumptions []string
-	Tech        string // technique (MANIFEST)
-	NeedU1      bool
-	NeedU2      bool
-	Rules       []func(*Ctx)
-	Thorough    []func(*Ctx) // extra rules / cross-checks in thorough tier
+	ID            string
+	Title         string
+	Explanation   string   // what the structural rules decide (goes to evidence.coverage.explanation)
+	NotDecided    []string // behavioural clauses that are NOT decided
+	Assumptions   []string
+	Tech          string // technique (MANIFEST)
+	UsesCallGraph bool   // rules rely on E-CALL reachability / who-may-call: thorough tier cross-checks with VTA
+	NeedU1        bool
+	NeedU2        bool
+	Rules         []func(*Ctx)
+	Thorough      []func(*Ctx) // extra rules / cross-checks in thorough tier
 }
 
 var registry = map[string]*propSpec{}
